@@ -84,6 +84,15 @@ fn scalar_map(hades_optimization: bool) -> HashMap<BlsScalar, usize> {
     scalars
 }
 
+/// Verification hook: the values of the built-in scalar table (with the
+/// Hades constants), sorted by their canonical encoding.
+#[cfg(feature = "verif")]
+pub(crate) fn verif_builtin_scalars() -> Vec<BlsScalar> {
+    let mut scalars: Vec<BlsScalar> = scalar_map(true).into_keys().collect();
+    scalars.sort_by_key(|s| s.to_bytes());
+    scalars
+}
+
 #[derive(Debug, Clone, PartialEq, Eq, MsgPacker)]
 pub struct CompressedCircuit {
     hades_optimization: bool,
